@@ -24,6 +24,50 @@ CLAIMED = {
    technique="Lean 4 proof over transition tables REGENERATED from the Go source by a go/ast translator on every run (finite table facts by decide +kernel, induction over event lists generic in the table); differential correspondence of the interpreted automaton against the real LCP/IPCP/IPv6CP state machines; monitor on the real automata",
    text="Machine-checked theorems (opened_mutual, leaves_opened, reply_echoes_id, ack_repeats_options, nak_rej_only_offending, ipcp_acks_only_assigned, silent_peer_stops) for each of LCP, IPCP, IPv6CP over all event sequences incl. stale timer firings; the transition tables are re-extracted from pkg/pppoe/*.go on every run so the theorems are re-checked against what the code says now; option handling, identifiers and timers are hand-modelled and tied by differential execution.",
    note="Trusted: Lean kernel + standard axioms; the extractfsm translator (refuses constructs outside its subset; its output is also exercised by the correspondence); hand-written option classifier model; harness and bngdrv-ncp. One event = one atomic step under the automaton's mutex; stale timer callbacks are explicit events."),
+ "C06": dict(design='DESIGN.md §7 C06',
+   technique='Lean 4 proof by decide over layout tables REGENERATED on every run (clang record layouts + go/types of the mirrored structs and every map call site), all-input theorems for the key derivations; byte-level correspondence through real kernel maps and the natively compiled programs',
+   text="every_use_agrees / every_use_fits_map / every_use_names_agree and friends are decided by the kernel over tables re-extracted from bpf/*.c and pkg/{ebpf,nat,qos,antispoof,walledgarden} on every run; MAC/VLAN/circuit-id/ALG key derivations are proved equal on both sides for all inputs; IPv4 and port byte-order conventions are stated as theorems with the disagreeing (map, field) tuples listed as known findings; bytes actually written through cilium into real kernel maps are compared with the model's prediction.",
+   note="Trusted: Lean kernel + propext/Classical.choice/Quot.sound (audited per theorem); the hand-written executable models, validated on every run by the correspondence against the real code; the Go/C harnesses and the bngdrv parser/printer; the layout translator (fails loudly outside its subset); clang's native record layout = BPF target layout for these fixed-width types; the IPv4/port convention table is hand-derived from the C and validated by execution."),
+ "C09": dict(design='DESIGN.md §7 C09',
+   technique='Lean 4 proof: every network-facing decoder modelled in a Go-bounds-checked monad (panic = Except), totality and linear step bound proved for all byte strings and protocol states; differential fuzz of the real decoders against the model',
+   text='For 30 decoders/handlers (PPPoE discovery/session, LCP/IPCP/IPv6CP receive paths in every state, PAP/CHAP, option 82, DHCPv6 message/option/IA parsers, CoA receive loop and attribute parser, HA stream slicing, ZTP vendor options, CreateSession id search) D_total (never panics, never indexes out of range) and D_linear (loop iterations linear in the input) are theorems over all byte strings; the models are tied to the real code by structured + mutated + random inputs with results compared verbatim.',
+   note='Trusted: Lean kernel + propext/Classical.choice/Quot.sound (audited per theorem); the hand-written executable models, validated on every run by the correspondence against the real code; the Go/C harnesses and the bngdrv parser/printer; library decoders (encoding/json, regexp, insomniacslk dhcpv4, layeh radius) are fuzzed only (monitor panic/hang), not modelled; wall-clock time is not a verdict.'),
+ "C10": dict(design='DESIGN.md §7 C10',
+   technique='Lean 4 proof: invariant + induction over NAT allocate/deallocate histories incl. the precheck/commit split of concurrent callers, uint16 port arithmetic; refinement theorem monitor_silent_on_model; differential correspondence with lock-hold interleavings and a parallel stress run',
+   text="blocks_disjoint, block_in_range (all configurations incl. non-dividing sizes and the 65535 edge), block_stable, attribution_unique/attribution_is_holder/log_tracks_table over all histories of the nat.Manager model; the C10 monitor is proved silent on the model and judges the real manager's answers and log.",
+   note='Trusted: Lean kernel + propext/Classical.choice/Quot.sound (audited per theorem); the hand-written executable models, validated on every run by the correspondence against the real code; the Go/C harnesses and the bngdrv parser/printer; each critical section is one atomic step (AllocateNAT = precheck + commit); eBPF map writes are nil in the harness; configurations with negative ints or rangeEnd > 65535 are excluded.'),
+ "C12": dict(design='DESIGN.md §7 C12',
+   technique='Lean 4 proof: memory/store agreement invariant over all histories with per-call store failures, restart with every enumeration order, remote puts; observational round-trip theorems; differential correspondence over a fault-injecting, order-permuting store',
+   text='session_store_failure_agrees, session_restart_preserves, session_restart_unique, session_remote_put_applied, epoch_roundtrip_observational proved at full strength for session mode; lease-mode and bitmap round-trip deviations are stated as _partial theorems with witness theorems and recorded as known findings (D38, D39, D40, KF-lease-store-epoch).',
+   note="Trusted: Lean kernel + propext/Classical.choice/Quot.sound (audited per theorem); the hand-written executable models, validated on every run by the correspondence against the real code; the Go/C harnesses and the bngdrv parser/printer; each method is one atomic step; Query failure at Start, crash inside a tick's cleanup and malformed store records are not modelled."),
+ "C13": dict(design='DESIGN.md §7 C13',
+   technique='Lean 4 proof: message-level refinement of the HA sync protocol (full sync = snapshot, stream applied in push order, convergence invariant on in-flight messages); differential correspondence at the message layer and end-to-end over loopback HTTP',
+   text='fullsync_equals_snapshot and stream_in_order at full strength; stream_complete_partial and converges_partial under explicit exclusion clauses for the recorded findings D42 (snapshot/attach gap) and D43 (full client channel drops), each with a witness theorem.',
+   note='Trusted: Lean kernel + propext/Classical.choice/Quot.sound (audited per theorem); the hand-written executable models, validated on every run by the correspondence against the real code; the Go/C harnesses and the bngdrv parser/printer; one standby; session state abstracted to (id, value); each handler iteration is one atomic step.'),
+ "C14": dict(design='DESIGN.md §7 C14',
+   technique='Lean 4 proof: small-step model of the failover controller with timer instances (incl. stale firings) and split execute phases, invariants by induction over all event sequences; differential correspondence inside testing/synctest (virtual time)',
+   text='promote_requires_sustained_down, auto_promotions_sustained, recovery_cancels, role_after_callback_ok, one_completed_per_promotion, failback_only_healthy, no_stuck_in_progress over all event sequences of the FailoverController model, tied to the real controller by BFS/random event sequences on a virtual clock.',
+   note='Trusted: Lean kernel + propext/Classical.choice/Quot.sound (audited per theorem); the hand-written executable models, validated on every run by the correspondence against the real code; the Go/C harnesses and the bngdrv parser/printer; the role-change callback is instantaneous; the goroutine race of a firing timer with Stop() is an explicit stale-timer event delivered through a verif hook.'),
+ "C15": dict(design='DESIGN.md §7 C15',
+   technique='Lean 4 proof with the hash as an uninterpreted parameter: acted_iff_authentic, response_verifies, dropped_no_effect over all datagrams and secrets; executable MD5 in Lean validated against crypto/md5; differential correspondence over a loopback UDP socket',
+   text="A handler is invoked and a response sent iff the datagram is a complete RADIUS packet of code 40/43 with well-formed attributes whose Request Authenticator verifies (for every hash function H); every response carries the request's identifier and a verifying Response Authenticator; the real CoAServer is driven with every single-bit flip/truncation/length mutation of valid requests.",
+   note='Trusted: Lean kernel + propext/Classical.choice/Quot.sound (audited per theorem); the hand-written executable models, validated on every run by the correspondence against the real code; the Go/C harnesses and the bngdrv parser/printer; no cryptographic assumption (H universally quantified); MD5 implementation in Lean is part of the driver only.'),
+ "C17": dict(design='DESIGN.md §7 C17',
+   technique='Lean 4 proof with the score function uninterpreted: order independence, permutation/head, minimal disruption and single-server theorems over all peer sets and histories of add/remove/health; differential correspondence incl. FNV-1a/mixer in UInt64',
+   text='owner_order_independent, all_peers_agree, ranked_perm, ranked_head_is_owner, remove_minimal/membership_minimal/unhealthy_minimal, single_server for every peer set, configuration order and subscriber id; the real PeerPool is driven with all permutations up to size 5, all health vectors and a 3-4 node in-memory HTTP cluster.',
+   note='Trusted: Lean kernel + propext/Classical.choice/Quot.sound (audited per theorem); the hand-written executable models, validated on every run by the correspondence against the real code; the Go/C harnesses and the bngdrv parser/printer; sort.Slice beyond 12 peers is covered only by the distinct-scores theorem; an all-zero score vector is excluded by an explicit hypothesis (SomePositive).'),
+ "C18": dict(design='DESIGN.md §7 C18',
+   technique="Lean 4 proof: byte-level model of antispoof_ingress + the manager's map encoders, decision logic stated outright for all frames and map contents; native differential of the UNMODIFIED C (clang, ASan, guard page) with bytes written by the real manager into real kernel maps",
+   text='strict_iff / strict_iff_v6, loose_iff, logonly_forwards, disabled_forwards, nonip_forwards, binding_as_written, strict_end_to_end, loose_end_to_end for all frames with a complete IP header; VLAN-tagged bypass (D51) and the missing IPv6 range table in loose mode are stated with witness theorems and recorded as known findings.',
+   note="Trusted: Lean kernel + propext/Classical.choice/Quot.sound (audited per theorem); the hand-written executable models, validated on every run by the correspondence against the real code; the Go/C harnesses and the bngdrv parser/printer; clang's x86-64 code generation stands in for the BPF back end; the in-kernel verifier is not exercised; per-CPU and multi-CPU effects are not modelled."),
+ "C19": dict(design='DESIGN.md §7 C19',
+   technique='Lean 4 proof in exact UInt64 arithmetic: upper bound admitted_le for all arrival sequences by a potential argument, lower bound under an explicit loss clause with the starvation defect proved as a theorem; native differential of the C token bucket with scripted clock and manager-written buckets',
+   text='rate_zero_unlimited, admitted_le/admitted_le_rate (bytes admitted in any window never exceed burst + rate*window), policy_enforced (the bucket found for a packet is the one SetSubscriberQoS wrote), served_ge_partial + D52_witness + D52_starvation_unbounded (recorded finding: truncating refill starves a fast-polling subscriber).',
+   note='Trusted: Lean kernel + propext/Classical.choice/Quot.sound (audited per theorem); the hand-written executable models, validated on every run by the correspondence against the real code; the Go/C harnesses and the bngdrv parser/printer; clang native build stands in for the BPF back end; multi-CPU races on one bucket are not modelled.'),
+ "C20": dict(design='DESIGN.md §7 C20',
+   technique='Lean 4 proof: bijection invariants by induction over all histories for the VLAN allocator, QinQ mapper, PPPoE session table and secondary indexes; injectivity domain of the circuit-id key and pigeonhole non-injectivity of any 64-bit hash; differential correspondence',
+   text='bijection_inv / id_unique / in_ranges / release_frame per component (vlan, qinq, pppsess, index), key_injective_on + explicit failure outside, hash_not_injective for every hash function; deviations (range of loaded pairs, uint16 wrap, same-MAC sessions, re-keyed records, circuit-id truncation) are _partial theorems with witnesses and recorded known findings.',
+   note='Trusted: Lean kernel + propext/Classical.choice/Quot.sound (audited per theorem); the hand-written executable models, validated on every run by the correspondence against the real code; the Go/C harnesses and the bngdrv parser/printer; each mutex-protected method is one atomic step; no -race stress run.'),
 }
 NA_REASON = "not claimed in this revision: model, theorems and correspondence for this property are not built yet (see DESIGN.md §7 for the plan); no check is registered rather than registering a weaker technique"
 m = {
